@@ -56,3 +56,23 @@ fn transparent_bool() {
         assert!(k2 == k);
     }
 }
+
+//@harness transparent_hasher_write_bytes props=C18 target=TransparentHasher::write bounded=slices_up_to_12_bytes claim=write(bytes) keeps the first min(len, 8) bytes in native order, zero padded, for every byte slice of length 0..=12 (bounded: longer slices take the same >8 branch)
+#[kani::proof]
+#[kani::unwind(14)]
+fn transparent_hasher_write_bytes() {
+    let n: usize = kani::any();
+    kani::assume(n <= 12);
+    let bytes: [u8; 12] = kani::any();
+    let mut h = TransparentHasher::default();
+    h.write(&bytes[..n]);
+    let mut d = [0u8; 8];
+    let mut i = 0;
+    while i < 8 {
+        if i < n {
+            d[i] = bytes[i];
+        }
+        i += 1;
+    }
+    assert!(h.finish() == u64::from_ne_bytes(d));
+}
